@@ -144,6 +144,23 @@ fn redeem_case(rng: &mut Rng, case: &mut Case, family: Family) -> Outcome {
         Err(pn) => return violated("panic:decode", format!("{} ; {}", pn, dag.render())),
     };
     if let Err((sig, d)) = compare_lists(&redeem_nodes(&p), &redeem_nodes(&p2), "redeem") {
+        // A recognisable class: the program holds two node objects with one identity root (equal
+        // structure, witnesses and outer types) whose interior types differ, because one of them
+        // shares a child with another part of the program. The encoder writes such nodes once.
+        if sig == "redeem-amr" {
+            use simplicity::dag::InternalSharing;
+            let mut by_ihr: std::collections::HashMap<[u8; 32], [u8; 32]> = std::collections::HashMap::new();
+            let mut twins = false;
+            for x in p.as_ref().post_order_iter::<InternalSharing>() {
+                let (i, a) = (x.node.ihr().to_byte_array(), x.node.amr().to_byte_array());
+                if *by_ihr.entry(i).or_insert(a) != a {
+                    twins = true;
+                }
+            }
+            if twins {
+                return violated("redeem-amr:equal-ihr-nodes-typed-differently", format!("{} ; program {}", d, dag.render()));
+            }
+        }
         return violated(sig, format!("{} ; program {}", d, dag.render()));
     }
     let (pb2, wb2) = p2.to_vec_with_witness();
@@ -249,6 +266,38 @@ fn commit_case(rng: &mut Rng, case: &mut Case, family: Family) -> Outcome {
         Ok(Err(e)) => return violated("well-typed-program-rejected", format!("{} ; {}", e, dag.render())),
         Err(pn) => return violated("panic:build", pn),
     };
+    // commitment-time roots are the redemption-time roots wherever they are defined (no witness / disconnect below)
+    if !dag.nodes.iter().any(|o| matches!(o, Op::Disconnect(..))) {
+        if let Ok(wits) = prog::witness_values(&dag, rng, false) {
+            if let Ok(Ok(r)) = guard(|| prog::build_redeem(&dag, &order, &wits, None, Root::Program)) {
+                use simplicity::dag::InternalSharing;
+                let cn: Vec<_> = c.as_ref().post_order_iter::<InternalSharing>().collect();
+                let rn: Vec<_> = r.as_ref().post_order_iter::<InternalSharing>().collect();
+                if cn.len() != rn.len() {
+                    return violated("commit-vs-redeem-shape", format!("{} nodes at commitment time, {} at redemption time ; program {}", cn.len(), rn.len(), dag.render()));
+                }
+                for (a, b) in cn.iter().zip(rn.iter()) {
+                    if a.node.cmr() != b.node.cmr() {
+                        return violated("commit-vs-redeem-cmr", format!("node {} ({}): CMR {} at commitment time, {} at redemption time ; program {}", a.index, a.node.inner(), a.node.cmr(), b.node.cmr(), dag.render()));
+                    }
+                    if a.node.arrow().source.tmr() != b.node.arrow().source.tmr() || a.node.arrow().target.tmr() != b.node.arrow().target.tmr() {
+                        return violated("commit-vs-redeem-arrow", format!("node {} ({}): {} at commitment time, {} at redemption time ; program {}", a.index, a.node.inner(), a.node.arrow(), b.node.arrow(), dag.render()));
+                    }
+                    if let Some(i) = a.node.ihr() {
+                        case.count("commit-ihr-compared-with-redeem");
+                        if i != b.node.ihr() {
+                            return violated("commit-vs-redeem-ihr", format!("node {} ({}): IHR {} at commitment time, {} at redemption time ; program {}", a.index, a.node.inner(), i, b.node.ihr(), dag.render()));
+                        }
+                    }
+                    if let Some(m) = a.node.amr() {
+                        if m != b.node.amr() {
+                            return violated("commit-vs-redeem-amr", format!("node {} ({}): AMR {} at commitment time, {} at redemption time ; program {}", a.index, a.node.inner(), m, b.node.amr(), dag.render()));
+                        }
+                    }
+                }
+            }
+        }
+    }
     let pb = c.to_vec_without_witness();
     let c2 = match guard(|| decode_commit(&pb, family)) {
         Ok(Ok(c)) => c,
@@ -280,10 +329,10 @@ fn commit_case(rng: &mut Rng, case: &mut Case, family: Family) -> Outcome {
 
 pub fn run(ctx: &Ctx) {
     let t = ctx.tier;
-    for (name, fam, n) in [("redeem-nojets", Family::None, t.pick(20_000u64, 1_000_000)), ("redeem-core", Family::Core, t.pick(15_000, 800_000)), ("redeem-elements", Family::Elements, t.pick(15_000, 800_000))] {
+    for (name, fam, n) in [("redeem-nojets", Family::None, t.pick(100_000u64, 1_000_000)), ("redeem-core", Family::Core, t.pick(75_000, 800_000)), ("redeem-elements", Family::Elements, t.pick(75_000, 800_000))] {
         ctx.run_sub(name, Plan::sample(n, 0.25), |rng, case| redeem_case(rng, case, fam));
     }
-    for (name, fam, n) in [("commit-core", Family::Core, t.pick(8_000u64, 300_000)), ("commit-elements", Family::Elements, t.pick(8_000, 300_000))] {
+    for (name, fam, n) in [("commit-core", Family::Core, t.pick(40_000u64, 300_000)), ("commit-elements", Family::Elements, t.pick(40_000, 300_000))] {
         ctx.run_sub(name, Plan::sample(n, 0.12), |rng, case| commit_case(rng, case, fam));
     }
 }
